@@ -6,6 +6,7 @@ import (
 	"net"
 	"os"
 	"sync"
+	"sync/atomic"
 	"time"
 
 	"github.com/echovault/sugardb/sugardb"
@@ -140,8 +141,20 @@ func (c *Client) Do(argv ...string) (resp.Value, []byte, error) {
 	if err := c.Send(resp.Encode(argv...)); err != nil {
 		return resp.Value{}, nil, err
 	}
-	return c.Read(20 * time.Second)
+	v, raw, err := c.Read(20 * time.Second)
+	if err != nil {
+		var ne net.Error
+		if errors.As(err, &ne) && ne.Timeout() {
+			// a watchdog that fires on a loaded machine decides nothing: the same read is continued once,
+			// for a minute, before the reply is called missing
+			clientWatchdogExtended.Add(1)
+			return c.Read(60 * time.Second)
+		}
+	}
+	return v, raw, err
 }
+
+var clientWatchdogExtended atomic.Int64
 
 // Drain returns whatever arrives within d (used to detect extra bytes).
 func (c *Client) Drain(d time.Duration) []byte {
